@@ -503,7 +503,7 @@ sys.stdout.write("ANSWERS " + json.dumps(out) + "\n")
 """
 
 
-def restart_fresh(obj, queries, hashseed="777"):
+def restart_fresh(obj, queries, hashseed="1"):
     """Unpickle in a brand-new interpreter (other PYTHONHASHSEED) and answer queries there."""
     env = dict(os.environ)
     env["PYTHONHASHSEED"] = hashseed
